@@ -170,8 +170,55 @@ def do_cross(ids):
         print(sid, hits)
 
 
+def do_report():
+    """Write seeded/RESULTS.md: every seeded change, its blind (first) outcome and the rule(s) that report it today."""
+    sys.path.insert(0, VERIF)
+    from concurrent.futures import ProcessPoolExecutor
+
+    from djc_sa.selftest import _seeded
+
+    ids = [d for d in sorted(os.listdir(SEEDED)) if os.path.isfile(os.path.join(SEEDED, d, "patch.diff"))]
+    with ProcessPoolExecutor(max_workers=12) as ex:
+        res = list(ex.map(_seeded, [("/repo", sid) for sid in ids]))
+    rows = []
+    stats = {}
+    for sid, r in zip(ids, res):
+        meta = json.load(open(os.path.join(SEEDED, sid, "meta.json")))
+        rnd = "3" if "-r3-" in sid else "2" if "-r2-" in sid else "1"
+        fo = meta.get("first_outcome") or meta.get("first_recorded_outcome") or {}
+        blind = fo.get("result", "n/a")
+        if rnd == "1":
+            blind = "n/a (informed the rules)"
+        summ = meta.get("summary") or meta.get("description") or ""
+        if isinstance(summ, dict):
+            summ = json.dumps(summ)
+        summ = " ".join(str(summ).split())[:150].replace("|", "/")
+        fired = ", ".join(r.get("fired") or []) or "-"
+        now = {1: "reported", 0: "MISSED", 2: "analysis-error"}.get(r.get("exit"), r.get("result"))
+        rows.append(f"| {sid} | {rnd} | {blind} | {now} | {fired} | {summ} |")
+        st = stats.setdefault(rnd, {"n": 0, "blind": 0, "now": 0})
+        st["n"] += 1
+        st["blind"] += 1 if blind == "detected" or blind == "DETECTED" else 0
+        st["now"] += 1 if r.get("exit") == 1 else 0
+    obs = sorted(os.listdir(os.path.join(VERIF, "seeded_obsolete"))) if os.path.isdir(os.path.join(VERIF, "seeded_obsolete")) else []
+    with open(os.path.join(SEEDED, "RESULTS.md"), "w") as f:
+        f.write("# Seeded changes: blind outcome and current outcome\n\n")
+        f.write("Generated by `tools_seed.py report` (patches applied in memory to /repo's current sources; nothing is written to /repo).\n")
+        f.write("`blind` = outcome of the property's check when the change was first seen, before any rule was written or changed in response to it ")
+        f.write("(round 1 was produced while the rules were being written and has no blind measurement; round-2 values are the first outcome found in the session log).\n\n")
+        for rnd in sorted(stats):
+            st = stats[rnd]
+            f.write(f"- round {rnd}: {st['n']} confirmed changes; blind detected {st['blind'] if rnd != '1' else 'n/a'}; reported today {st['now']}\n")
+        f.write(f"- {len(obs)} former seeded changes became behaviour-preserving after a later fix and are kept as must-stay-silent variants: {', '.join(obs)}\n")
+        f.write("\n| id | round | blind | today | rule(s) | change |\n|---|---|---|---|---|---|\n")
+        f.write("\n".join(rows) + "\n")
+    print(json.dumps(stats))
+
+
 if __name__ == "__main__":
-    if sys.argv[1] == "cross":
+    if sys.argv[1] == "report":
+        do_report()
+    elif sys.argv[1] == "cross":
         do_cross(sys.argv[2:])
     elif sys.argv[1] == "first":
         do_first(sys.argv[2:])
